@@ -63,32 +63,47 @@ func odtStyleFor(p *lpara, auto, named map[string]bool) string {
 		case "family":
 			s = p.Fam // its ancestors are added by family.closeNeed
 			named[s] = true
+		case "outline":
+			// text:h with its text:outline-level, written in a body style (or in none)
+			s = odtPlainStyle(p.Plain, auto, named)
 		}
 	case "p":
 		if p.Fam != "" {
 			s = p.Fam // a (cell) paragraph written in a style of the family
 			named[s] = true
 		}
-		switch p.Via {
-		case "quote":
-			s = "Quotations"
-			named[s] = true
-		case "boldsmall":
-			s = "PB1"
-			auto[s] = true
-		case "bigbold":
-			s = "PB2"
-			auto[s] = true
-		case "cycplain":
-			s = "CycPlainA"
-			named[s] = true
-			named["CycPlainB"] = true
+		if ps := odtPlainStyle(p.Via, auto, named); ps != "" {
+			s = ps
 		}
 	case "li":
 		s = "List_20_Paragraph"
 		named[s] = true
 	}
 	return s
+}
+
+// odtPlainStyle: the style name of a non-heading paragraph style (a p.Via value).
+// "undef" is a name neither content.xml nor styles.xml defines.
+func odtPlainStyle(via string, auto, named map[string]bool) string {
+	switch via {
+	case "quote":
+		named["Quotations"] = true
+		return "Quotations"
+	case "boldsmall":
+		auto["PB1"] = true
+		return "PB1"
+	case "bigbold":
+		auto["PB2"] = true
+		return "PB2"
+	case "cycplain":
+		named["CycPlainA"], named["CycPlainB"] = true, true
+		return "CycPlainA"
+	case "undef":
+		return "Textk_f6_rper"
+	case "normal":
+		return "Standard"
+	}
+	return ""
 }
 
 func odtStyleDef(name string, noOutline bool) *Node {
